@@ -75,6 +75,7 @@ pub fn build_graph(gs: &GraphSpec) -> Result<(G, Built), BuildPanic> {
                 reads: f.reads,
                 writes: f.writes,
                 style: f.style,
+                own: f.own,
                 visits: 0,
             });
             ids.push(id);
